@@ -15,14 +15,17 @@ import Verif.Model.Constraints
 
   * `engine_eq_spec`        the engine under test (`validateF ∘ NewF`) equals the specification
   * `fixed_eq_percert`      … because it computes the per-certificate evaluation exactly
-  * `divergence_only_v4mapped`  allow ⇒ RFC 5280 accept for *all* names; the one hypothesis left is
-                            "no IPv4-mapped IPv6 subtree" = known finding F3 (`v4mapped_refuted`)
-  * `authority_sound(_plain)`   the same on intermediates ++ issuing root, key ids or not
+  * `engine_sound_parsed`   allow ⇒ RFC 5280 accept for every chain of parsed certificates and all
+                            names (no hypothesis on the chain's content since 3d20cbd)
+  * `authority_sound(_parsed)`  the same on intermediates ++ issuing root, key ids or not
   * `excluded_exact`, `excluded_sound_*`   exclusion over the flat lists
   * `all_paths`, `checked_is_signed`   where the engine is consulted (source-derived tables)
+  * `front_issues_iff`, `front_sound`, `front_client_error`   the HTTP sign/renew/rekey handlers,
+                            ACME and SCEP (ACME included since 89421a7)
   * `validate_total`        no name makes the engine abort on subtrees a parsed certificate can carry
   * historic: `permitted_refuted` (D8), `permitted_partial`, `rootdrop_refuted`,
-    `unparsable_dns_refuted`, `leadingdot_refuted` (O1), `matchDomain/Email/URI_eq_spec`
+    `unparsable_dns_refuted`, `leadingdot_refuted` (O1), `v4mapped_refuted` (F3),
+    `acme_status_refuted` (F4), `matchDomain/Email/URI_eq_spec`
 -/
 namespace Verif.Constraints
 open Verif Verif.Str
@@ -413,11 +416,23 @@ theorem matchDomain_eq_spec (d c : Str) (hd : leadingDot d = false)
   · unfold matchDomain; simp_all
   · simp
 
-/-- an IP subtree whose address is not an IPv4-mapped IPv6 address is matched alike -/
-theorem matchIP_eq_spec (i : List Nat) (c : IpNet) (hc : normalizeIP c.ip = c.ip) :
+/-- an `IPNet` as `x509.ParseCertificate` produces it: mask as long as the address -/
+def IpNet.parsed (n : IpNet) : Prop := n.mask.length = n.ip.length
+instance (n : IpNet) : Decidable n.parsed := by unfold IpNet.parsed; infer_instance
+
+/-- on every parsed IP subtree the engine's `matchIPConstraint` (since 3d20cbd) is RFC 5280
+    membership as crypto/x509 computes it -/
+theorem matchIP_eq_spec (i : List Nat) (c : IpNet) (hc : c.parsed) :
     matchIP i c = specMatchIP i c := by
+  have he : c.eff = c.ip := by
+    unfold IpNet.eff
+    split
+    · rename_i h4
+      have : c.ip.length = 4 := by unfold IpNet.parsed at hc; omega
+      simp [normalizeIP, to4, this]
+    · rfl
   unfold matchIP specMatchIP
-  simp [hc]
+  simp [he]
 
 theorem matchURI_eq_spec (u : Uri) (c : Str)
     (hh : leadingDot u.host = false) (hs : ∀ h, u.split = some h → leadingDot h = false)
@@ -643,15 +658,19 @@ theorem chainFor_all_roots (ints roots : List Cert) (last : Cert) (hl : ints.get
   intro r hr
   simp [(hm r hr).1, (hm r hr).2]
 
-/-- **v4mapped_refuted**: a permitted IPv6 subtree `::ffff:10.0.0.0/104` (an IPv4-mapped
-    address) is rewritten to IPv4 by `normalizeIP` and compared under the first four octets of
-    its 16-octet mask (all ones): the engine allows the iPAddress 10.0.0.0, which lies in no
-    permitted subtree for a verifier that compares families as encoded. -/
+/-- **v4mapped_refuted** (historic: `matchIPConstraint` before 3d20cbd, `matchIP2021`): a
+    permitted IPv6 subtree `::ffff:10.0.0.0/104` (an IPv4-mapped address) was rewritten to IPv4
+    and compared under the first four octets of its 16-octet mask (all ones), so the iPAddress
+    10.0.0.0 matched a subtree no verifier that compares families as encoded puts it in. -/
 def mappedNet : IpNet := ⟨[0,0,0,0,0,0,0,0,0,0,255,255,10,0,0,0], [255,255,255,255,255,255,255,255,255,255,255,255,255,0,0,0]⟩
 theorem v4mapped_refuted :
-    ¬ ∀ (chain : List Level) (n : Names), validatePerCert chain n = .allow → specAccept chain n = true := by
+    ¬ ∀ (i : List Nat) (c : IpNet), c.parsed → matchIP2021 i c = specMatchIP i c := by
   intro h
-  exact absurd (h [{ pIP := [mappedNet] }] { ips := [[10,0,0,0]] } (by decide)) (by decide)
+  exact absurd (h [10,0,0,0] mappedNet (by decide)) (by decide)
+
+/-- now the same subtree does not match, and the engine refuses the address -/
+example : matchIP [10,0,0,0] mappedNet = .no := by decide
+example : validateF (NewF [{ pIP := [mappedNet] }]) { ips := [[10,0,0,0]] } = .deny .notPermitted .ip := by decide
 
 /-- **leadingdot_refuted** (historic: the flat engine before 41cbd56, `validate2021`): the 2021
     `domainToReverseLabels` dropped a leading empty label, so the URI host `.example.com` was
@@ -680,7 +699,7 @@ theorem matchURI_ne_crash (u : Uri) (c : Str) : matchURI u c ≠ .crash := by
 
 /-- the mask is at least as long as the (normalised) subtree address: true of every
     `*net.IPNet` that `x509.ParseCertificate` produces (4+4 or 16+16 octets) -/
-def IpNet.wf (n : IpNet) : Prop := (normalizeIP n.ip).length ≤ n.mask.length
+def IpNet.wf (n : IpNet) : Prop := n.eff.length ≤ n.mask.length
 
 theorem ipLoop_ne_crash (a c m : List Nat) (h : a.length ≤ m.length) : ipLoop a c m ≠ .crash := by
   induction a generalizing c m with
@@ -705,7 +724,7 @@ theorem matchIP_ne_crash (i : List Nat) (n : IpNet) (h : n.wf) : matchIP i n ≠
   · rename_i hlen
     apply ipLoop_ne_crash
     unfold IpNet.wf at h
-    have : (normalizeIP i).length = (normalizeIP n.ip).length := by simpa using hlen
+    have : (normalizeIP i).length = n.eff.length := by simpa using hlen
     omega
 
 /-- the abort is real for a hand-built `IPNet` with a short mask (no parsed certificate has one) -/
@@ -815,7 +834,7 @@ theorem matchIP_decided (i : List Nat) (n : IpNet) (h : n.wf) : matchIP i n = .y
     split
     · simp
     · generalize normalizeIP i = a
-      generalize normalizeIP n.ip = c
+      generalize n.eff = c
       generalize n.mask = m
       induction a generalizing c m with
       | nil => simp [ipLoop]
@@ -1128,37 +1147,45 @@ theorem guarded_spec (l : List Step) (h : guarded l = true) :
 example : guarded [.casCreate, .validate true] = false := by decide
 example : guarded [.validate false, .casCreate] = false := by decide
 
-/-! ## 11. O1 after `fix:` 41cbd56: the engine and today's verifier part only on IPv4-mapped subtrees -/
+/-! ## 11. After `fix:` 41cbd56 and 3d20cbd: no divergence left between engine and verifier -/
 
-/-- no IP subtree of the chain is an IPv4-mapped IPv6 one (finding F3) -/
-def PlainIP (chain : List Level) : Prop :=
-  ∀ l ∈ chain, ∀ c, c ∈ l.pIP ∨ c ∈ l.xIP → normalizeIP c.ip = c.ip
+/-- every IP subtree of the chain has a mask as long as its address: the shape of every
+    `net.IPNet` that `x509.ParseCertificate` puts into a certificate (8 or 32 octets split in
+    half). A structural fact about parsed certificates, not a restriction on which subtrees a
+    chain may carry. -/
+def ParsedIP (chain : List Level) : Prop :=
+  ∀ l ∈ chain, ∀ c, c ∈ l.pIP ∨ c ∈ l.xIP → c.parsed
 
-theorem agree_of_plain (chain : List Level) (n : Names) (h : PlainIP chain) : Agree chain n where
+theorem agree_of_parsed (chain : List Level) (n : Names) (h : ParsedIP chain) : Agree chain n where
   ip := fun i _ l hl c hc => matchIP_eq_spec i c (h l hl c hc)
 
-/-- **divergence_only_v4mapped** (the former `divergence_only_malformed`, now without any
-    hypothesis on the names): for *every* list of names — malformed dNSNames, leading periods,
-    host-less URIs included — and every placement of subtrees, what
-    `constraints.New(chain...).Validate` allows is acceptable under RFC 5280 to every certificate
-    of the chain, provided no IP subtree is an IPv4-mapped IPv6 one. That remaining hypothesis is
-    exactly known finding F3 (`v4mapped_refuted`). -/
-theorem divergence_only_v4mapped (chain : List Level) (n : Names) (h : PlainIP chain) :
+/-- **engine_sound_parsed** (the former `divergence_only_v4mapped`, the hypothesis on the
+    *content* of the chain is gone): for every chain of parsed certificates — any number of
+    levels, any placement of permitted and excluded DNS, IP, e-mail and URI subtrees,
+    IPv4-mapped IPv6 subtrees included — and every list of names, what
+    `constraints.New(chain...).Validate` allows is acceptable under RFC 5280 §6.1.4(g) to every
+    certificate of the chain. -/
+theorem engine_sound_parsed (chain : List Level) (n : Names) (h : ParsedIP chain) :
     validateF (NewF chain) n = .allow → specAccept chain n = true :=
-  engine_sound chain n (agree_of_plain chain n h)
+  engine_sound chain n (agree_of_parsed chain n h)
 
 /-- the same for the authority as a whole: intermediates ++ issuing root -/
-theorem authority_sound_plain (ints roots : List Cert) (n : Names) (last r : Cert)
+theorem authority_sound_parsed (ints roots : List Cert) (n : Names) (last r : Cert)
     (hl : ints.getLast? = some last) (hr : r ∈ roots) (hs : last.issuer = r.subject)
     (hv : r.signsLast = true)
-    (hp : ∀ ch, chainForSig ints roots = some ch → PlainIP (ch.map (·.nc))) :
+    (hp : ∀ ch, chainForSig ints roots = some ch → ParsedIP (ch.map (·.nc))) :
     authorityValidateF ints roots n = .allow → specAccept ((ints ++ [r]).map (·.nc)) n = true :=
-  authority_sound ints roots n last r hl hr hs hv (fun ch hch => agree_of_plain _ n (hp ch hch))
+  authority_sound ints roots n last r hl hr hs hv (fun ch hch => agree_of_parsed _ n (hp ch hch))
 
-example : PlainIP okChain := by
+example : ParsedIP okChain := by
   intro l hl c hc
   simp [okChain] at hl
   rcases hl with rfl | rfl | rfl <;> simp at hc <;> (try subst hc) <;> decide
+/-- a chain with an IPv4-mapped IPv6 subtree is a chain of parsed certificates too -/
+example : ParsedIP [{ pIP := [mappedNet] }] := by
+  intro l hl c hc
+  simp at hl; subst hl
+  simp at hc; subst hc; decide
 
 /-- **unparsable_dns_refuted** (historic: the flat engine before 41cbd56, `validate2021`): it
     looked at a name only when a subtree *of its kind* existed, so under IP subtrees only the
@@ -1273,5 +1300,40 @@ example : sealed [.define, .call "Modify", .call "Modify", .call "Valid", .check
     .call "Enforce", .call "callAuthorizingWebhooksX509", .cas false] = false := by decide
 /-- a field assignment after the check is not sealed either -/
 example : sealed [.define, .check false, .assign "DNSNames", .cas false] = false := by decide
+
+/-! ## 13. The front ends: sign / renew / rekey handlers, ACME finalize, SCEP enrolment -/
+
+/-- **front_issues_iff**: through every front end a certificate is handed out iff the
+    authority's verdict on the names is `allow` -/
+theorem front_issues_iff (f : Front) (v : Verdict) : frontAnswer f v = .issued ↔ v = .allow := by
+  cases f <;> cases v <;> simp [frontAnswer]
+
+/-- **front_sound**: a certificate obtained through any front end carries names that are
+    acceptable under RFC 5280 on intermediates ++ issuing root (no IPv4-mapped IPv6 subtree) -/
+theorem front_sound (f : Front) (ints roots : List Cert) (n : Names) (last r : Cert)
+    (hl : ints.getLast? = some last) (hr : r ∈ roots) (hs : last.issuer = r.subject)
+    (hv : r.signsLast = true)
+    (hp : ∀ ch, chainForSig ints roots = some ch → ParsedIP (ch.map (·.nc))) :
+    frontAnswer f (authorityValidateF ints roots n) = .issued →
+      specAccept ((ints ++ [r]).map (·.nc)) n = true := by
+  intro h
+  exact authority_sound_parsed ints roots n last r hl hr hs hv hp ((front_issues_iff f _).1 h)
+
+/-- **front_client_error**: every front end — the sign, renew and rekey handlers, ACME finalize
+    and SCEP — answers a refusal for name constraints with a client error (403; ACME
+    `rejectedIdentifier`; pkiStatus FAILURE) -/
+theorem front_client_error (f : Front) (r : Reason) (k : Kind) :
+    frontAnswer f (.deny r k) = .clientError := by
+  cases f <;> simp [frontAnswer]
+
+/-- **front_demand**: every front end answers as C05 demands, for every verdict -/
+theorem front_demand (f : Front) (v : Verdict) : frontAnswer f v = frontDemand f v := by
+  cases f <;> cases v <;> simp [frontAnswer, frontDemand]
+
+/-- **acme_status_refuted** (historic: `Order.Finalize` before 89421a7, `frontAnswerOld`): the
+    authority's 403 for a name outside the constraints was wrapped into `serverInternal` (500). -/
+theorem acme_status_refuted : ¬ ∀ (f : Front) (v : Verdict), frontAnswerOld f v = frontDemand f v := by
+  intro h
+  exact absurd (h .acme (.deny .notPermitted .dns)) (by decide)
 
 end Verif.Constraints
